@@ -146,6 +146,64 @@ theorem restart_campaign_equiv (policy : Policy K) (mode : Mode) (hm : mode ≠ 
     · simpa [List.sum_cons, Nat.add_assoc] using h2
     · simpa [List.sum_cons, Nat.add_assoc] using h3
 
+/-! ## what the refinement decision may depend on
+
+  `restart_equiv` quantifies over `Policy K = List (KP K) → List (RefOp K)`: the decision is a function of the
+  K-point list — values, weights, flags, order — i.e. of state that IS persisted (K_list.pickle, the factors
+  files, the per-K result files) and therefore identical after a restart.  The two theorems below make the
+  boundary explicit. -/
+
+theorem stepsH_fst {H : Type} (policyH : H → Policy K) (stepH : H → State K → H)
+    (hind : ∀ h h', policyH h = policyH h') (h0 : H) :
+    ∀ (n : Nat) (rh : Run K × H), (stepsH policyH stepH n rh).1 = steps (policyH h0) n rh.1
+  | 0, _ => rfl
+  | n + 1, rh => by
+    simp only [stepsH, steps]
+    rw [stepsH_fst policyH stepH hind h0 n]
+    simp only [nextIterH, hind rh.2 h0]
+
+/-- T3.  A process may carry any amount of non-persisted state `h` (evolving by any `stepH`, rebuilt by any
+    `initH` at a restart): as long as the refinement decision does not READ it, restart equivalence holds exactly
+    as in `restart_equiv`. -/
+theorem restart_equiv_persisted_only {H : Type} (policyH : H → Policy K) (stepH : H → State K → H)
+    (initH : State K → H) (hind : ∀ h h', policyH h = policyH h')
+    (mode : Mode) (hm : mode ≠ Mode.clear) (init : List (K × K)) (n1 n2 : Nat) (d : Disk K)
+    (hk : d.klog = (runFreshH policyH stepH initH mode init n1).1.disk.klog)
+    (hf : d.facs.Perm (runFreshH policyH stepH initH mode init n1).1.disk.facs) :
+    ∃ R, runRestartH policyH stepH initH mode d n2 = some R ∧
+      R.1.st = (runFreshH policyH stepH initH mode init (n1 + n2)).1.st ∧
+      (runFreshH policyH stepH initH mode init (n1 + n2)).1.saved =
+        (runFreshH policyH stepH initH mode init n1).1.saved ++ R.1.saved := by
+  have h0 : H := initH (freshStart mode init).st
+  have hfresh : ∀ n, (runFreshH policyH stepH initH mode init n).1 = runFresh (policyH h0) mode init n := by
+    intro n; unfold runFreshH runFresh; exact stepsH_fst policyH stepH hind h0 n _
+  rw [hfresh] at hk hf
+  obtain ⟨R, hR, hst, hsv, _, _, _⟩ := restart_equiv (policyH h0) mode hm init n1 n2 d hk hf
+  unfold runRestart at hR
+  cases hrs : restartStart true mode d (-1) with
+  | none => rw [hrs] at hR; cases hR
+  | some r0 =>
+    rw [hrs] at hR
+    simp only [Option.map_some, Option.some.injEq] at hR
+    refine ⟨stepsH policyH stepH n2 (r0, initH r0.st), by unfold runRestartH; rw [hrs]; rfl, ?_, ?_⟩
+    · rw [stepsH_fst policyH stepH hind h0, hfresh, hR]; exact hst
+    · rw [stepsH_fst policyH stepH hind h0, hfresh, hfresh, hR]; exact hsv
+
+/-- T3' — the hypothesis is needed.  A decision that reads non-persisted state breaks restart equivalence.
+    Here the hidden state is the number of iterations done by THIS process (re-created as 0 at a restart) and the
+    decision refines the K-point with that index: 2 iterations in one go give 21/4, 1 + 1 iterations give 4.
+    (A weight cache that is refreshed by set_factor() at a restart but not by add_factor() in the running process
+    is hidden state of exactly this kind.) -/
+theorem hidden_state_breaks_restart :
+    let policyH : Nat → Policy Rat := fun h _ => [RefOp.divide h [1, 2]]
+    let stepH : Nat → State Rat → Nat := fun h _ => h + 1
+    let initH : State Rat → Nat := fun _ => 0
+    let init := [((3 : Rat), 1/2), (5, 1/2)]
+    let d := (runFreshH policyH stepH initH Mode.memory init 1).1.disk
+    (runFreshH policyH stepH initH Mode.memory init 2).1.st.resultAll = some (7/4) ∧
+    (runRestartH policyH stepH initH Mode.memory d 1).map (fun R => R.1.st.resultAll) = some (some (13/4)) := by
+  decide +kernel
+
 /-! ## concrete instances (non-vacuity) -/
 
 /-- a policy for the examples: refine the last K-point into two children with values 1 and 2, merge nothing -/
